@@ -34,5 +34,13 @@ TEXTS.update({
     },
 })
 
+TEXTS["C13"] = {
+    "engine": "lean-model+extract+harness",
+    "design_ref": "4/C13",
+    "technique": "byte-level Lean 4 model of the LPM trie (Model.Lpm) validated against lpm.Trie/Txn/Iterator by an exact differential check incl. structure dumps; bit-string map oracle for longest-prefix, covered-prefix, ordering and persistence clauses",
+    "text": "Generated histories over 1- to 16-byte keys with prefixes diverging at every bit are executed on the real lpm package and on the Lean model; all observations including the trie structure are compared, and a reference map from bit strings decides each clause of the property on the implementation. One genuine defect (Prefix returned a diverging subtree) was found and repaired.",
+    "note": "Translation validation until the refinement theorems over Model.Lpm are finished.",
+}
+
 # every property not in TEXTS/PROPS must be listed here with a reason
 NOT_APPLICABLE = []
